@@ -7,6 +7,7 @@
 //	c10 replay <case.json> <out.jsonl>  re-run one stored case
 //	c10 parse <format> <nocolor> <file> parse one output produced by the regal binary
 //	c10 parsebatch <manifest.json>      the same for many outputs (no colours)
+//	c10 checkbatch <manifest.json>      outputs (files) against the report a json run published: exactly-once predicate only
 //
 // All strings are written hex-encoded (outputs may contain arbitrary bytes); "q" fields are %q renderings
 // for the human reader of a replay file.
@@ -1453,6 +1454,43 @@ func main() {
 			}
 			d, p := parseOutput(it.Format, true, string(ob), nil)
 			enc.Encode(map[string]any{"doc": d, "pred": p})
+		}
+	case "checkbatch": // manifest: [{"format","file","report"}]: does the output in file present every violation of the
+		// report (a --format json output) exactly once?  one {"ok","detail","bytes"} per line on stdout
+		b, err := os.ReadFile(os.Args[2])
+		if err != nil {
+			panic(err)
+		}
+		var items []struct {
+			Format string `json:"format"`
+			File   string `json:"file"`
+			Report string `json:"report"`
+		}
+		if err := json.Unmarshal(b, &items); err != nil {
+			panic(err)
+		}
+		reports := map[string]*report.Report{}
+		enc := json.NewEncoder(os.Stdout)
+		for _, it := range items {
+			r, ok := reports[it.Report]
+			if !ok {
+				rb, err := os.ReadFile(it.Report)
+				if err != nil {
+					panic(err)
+				}
+				r = &report.Report{}
+				if err := json.Unmarshal(rb, r); err != nil {
+					panic(fmt.Sprintf("report %s: %v", it.Report, err))
+				}
+				reports[it.Report] = r
+			}
+			ob, err := os.ReadFile(it.File)
+			if err != nil {
+				enc.Encode(map[string]any{"ok": false, "detail": "output file cannot be read: " + err.Error(), "bytes": 0})
+				continue
+			}
+			_, p := parseOutput(it.Format, true, string(ob), r)
+			enc.Encode(map[string]any{"ok": p.OK, "detail": p.Detail, "bytes": len(ob)})
 		}
 	default:
 		os.Exit(2)
